@@ -12,6 +12,8 @@ C3  `t = E; return t`            ->  `return E`                  (t a plain loca
 C4  `not (a == b)` / `not (a != b)` / `not (a in b)` / `not (a is b)` -> the negated comparison
 C5  statements following an unconditional return / raise / break / continue in the same block are dropped (dead)
 C6  `if a != b: A else: B`      ->  `if a == b: B else: A`      (also `not in`, `is not`; else present, no elif involved)
+C7  `a > b` / `a >= b`           ->  `b < a` / `b <= a`
+C8  `x: T = v`                   ->  `x = v`                     (annotated assignment with a value; name or attribute target)
 """
 from __future__ import annotations
 
@@ -32,6 +34,14 @@ _NEG = {ast.Eq: ast.NotEq, ast.NotEq: ast.Eq, ast.In: ast.NotIn, ast.NotIn: ast.
 
 
 class _Canon(ast.NodeTransformer):
+    def visit_AnnAssign(self, node):
+        # C8  `x: T = v` -> `x = v` (the annotation is not evaluated for attribute / subscript targets and has no effect on
+        # locals); a bare `x: T` declaration is left alone
+        self.generic_visit(node)
+        if node.value is not None and isinstance(node.target, (ast.Name, ast.Attribute)):
+            return ast.copy_location(ast.Assign(targets=[node.target], value=node.value, type_comment=None), node)
+        return node
+
     def visit_UnaryOp(self, node):
         self.generic_visit(node)
         if isinstance(node.op, ast.Not) and isinstance(node.operand, ast.Compare) and len(node.operand.ops) == 1 and type(node.operand.ops[0]) in _NEG:
